@@ -157,6 +157,8 @@ inductive Handler where
   | fail (id st : Nat)
   | raise (src : Src)     -- the real `error` handler (no probe: leaves no trace event)
   | answer (src : Src)    -- the real `static_response` handler (no probe)
+  | invoke (name : Nat)   -- the real `invoke` handler; in a tree handed to `run*` it stands for a
+                          -- name that is NOT among the server's named routes (see `inlineNamed`)
   | sub (rs : List Route) (hasErrs : Bool) (errs : List Route)
 /-- `group = 0` is the empty group name -/
 inductive Route where
@@ -214,6 +216,7 @@ def runHandler : Handler → K → K
       match src.resolve r with
       | some n => .done t (some n)
       | none => .err t 500 r          -- `return Error(http.StatusInternalServerError, err)`
+  | .invoke _, _ => fun r t => .err t 0 r   -- `fmt.Errorf("invoke: route '%s' not found", …)`
   | .sub rs hasErrs errs, k => fun r t =>
     -- Subroute.ServeHTTP: `sr.Routes.Compile(next)`; on error and `sr.Errors != nil`:
     -- `sr.Errors.WithError(r, err)`, `sr.Errors.Routes.Compile(next)` — no URI restore
@@ -255,5 +258,85 @@ def serve (routes : List Route) (hasErrs : Bool) (errs : List Route) (req : Req)
       | .done t2 s2 => ⟨t2, s2⟩
       | .err t2 _ _ => ⟨t2, some (writeStatus (some st))⟩
     else ⟨t, some (writeStatus (some st))⟩
+
+/-! ### named routes
+
+`Invoke.ServeHTTP` looks the name up in `server.NamedRoutes` and runs `route.Compile(next)` — the
+very `wrapRoute` closure a subroute would build for a one-route list.  The model resolves names by
+substitution: `inlineOnce` replaces every `invoke n` whose name is defined by a subroute holding
+that one route; `inlineNamed` does so `env.length` times, which resolves everything when named
+routes only invoke later-named ones (the harness' acyclicity rule; a cycle would be unbounded
+recursion in the Go code).  Names are 1-based positions in `env`. -/
+
+def lookupNamed (env : List Route) (n : Nat) : Option Route :=
+  if n = 0 then none else env[n - 1]?
+
+mutual
+def inlineHs (env : List Route) : List Handler → List Handler
+  | [] => []
+  | h :: hs => inlineH env h :: inlineHs env hs
+def inlineH (env : List Route) : Handler → Handler
+  | .invoke n =>
+    match lookupNamed env n with
+    | some rt => .sub [rt] false []
+    | none => .invoke n
+  | .sub rs hasErrs errs => .sub (inlineRs env rs) hasErrs (inlineRs env errs)
+  | .pass id => .pass id
+  | .respond id st => .respond id st
+  | .rewrite id p => .rewrite id p
+  | .fail id st => .fail id st
+  | .raise src => .raise src
+  | .answer src => .answer src
+def inlineRs (env : List Route) : List Route → List Route
+  | [] => []
+  | rt :: rs => inlineR env rt :: inlineRs env rs
+def inlineR (env : List Route) : Route → Route
+  | .mk g sets hs term => .mk g sets (inlineHs env hs) term
+end
+
+def inlineNamed (env : List Route) : Nat → List Route → List Route
+  | 0, rs => rs
+  | n + 1, rs => inlineNamed env n (inlineRs env rs)
+
+mutual
+/-- does the tree still contain an `invoke` of a defined name? -/
+def hsUnresolved (env : List Route) : List Handler → Bool
+  | [] => false
+  | h :: hs => hUnresolved env h || hsUnresolved env hs
+def hUnresolved (env : List Route) : Handler → Bool
+  | .invoke n => (lookupNamed env n).isSome
+  | .sub rs _ errs => rsUnresolved env rs || rsUnresolved env errs
+  | _ => false
+def rsUnresolved (env : List Route) : List Route → Bool
+  | [] => false
+  | rt :: rs => rUnresolved env rt || rsUnresolved env rs
+def rUnresolved (env : List Route) : Route → Bool
+  | .mk _ _ hs _ => hsUnresolved env hs
+end
+
+mutual
+/-- every `invoke` inside names a route > `b` -/
+def hsInvGt (b : Nat) : List Handler → Bool
+  | [] => true
+  | h :: hs => hInvGt b h && hsInvGt b hs
+def hInvGt (b : Nat) : Handler → Bool
+  | .invoke n => n > b
+  | .sub rs _ errs => rsInvGt b rs && rsInvGt b errs
+  | _ => true
+def rsInvGt (b : Nat) : List Route → Bool
+  | [] => true
+  | rt :: rs => rInvGt b rt && rsInvGt b rs
+def rInvGt (b : Nat) : Route → Bool
+  | .mk _ _ hs _ => hsInvGt b hs
+end
+
+/-- the route named j (position j-1) only invokes names > j -/
+def namedValid : Nat → List Route → Bool
+  | _, [] => true
+  | j, rt :: rs => rInvGt (j + 1) rt && namedValid (j + 1) rs
+
+/-- `Server.ServeHTTP` on a server with named routes -/
+def serveNamed (env routes : List Route) (hasErrs : Bool) (errs : List Route) (req : Req) : Result :=
+  serve (inlineNamed env env.length routes) hasErrs (inlineNamed env env.length errs) req
 
 end CaddyModel.C05
